@@ -16,7 +16,10 @@ def run_variant(diff, run_tests=False, props_override=None):
     tmp = tempfile.mkdtemp(prefix='h263-variant-')
     try:
         repo = os.path.join(tmp, 'repo')
-        shutil.copytree('/repo', repo, ignore=shutil.ignore_patterns('target', '.git'))
+        # the committed tree, not the working tree: tools/seeded.py may have a patch applied to /repo while this runs
+        os.makedirs(repo)
+        subprocess.run('git -C /repo archive HEAD | tar -x -C %s' % repo, shell=True, check=True)
+        if os.path.exists('/repo/Cargo.lock'): shutil.copy('/repo/Cargo.lock', repo)
         r = subprocess.run(['patch', '-p1', '-s', '-i', diff], cwd=repo, stdout=subprocess.PIPE, stderr=subprocess.STDOUT, text=True)
         if r.returncode != 0:
             return {'error': 'patch failed: ' + r.stdout[-500:]}
